@@ -23,6 +23,14 @@ def main(args):
         doc = json.load(f)
     times = int(args[args.index("--times") + 1]) if "--times" in args else 1
     engine = (doc.get("detail") or {}).get("engine", "yata")
+    if engine not in ENGINES:
+        # an engine may bring its own replay function
+        try:
+            m = importlib.import_module(engine + "_pipe")
+            if hasattr(m, "replay"):
+                return m.replay(doc)
+        except ImportError:
+            pass
     sched = doc["schedule"]
     wd = os.path.join(vlib.WORK, "replay-run")
     shutil.rmtree(wd, ignore_errors=True)
